@@ -319,7 +319,7 @@ package crypto
 //@ ensures [inv] vssCore(s) && unchanged(s.dkgCommon) && unchanged(s.dealerIndex) && (old(vssInv(s)) ==> vssInv(s))
 
 //@ func (*feldmanVSSstate).generateShares mode int props C06 C09
-//@ requires vssCore(s) && s.running
+//@ requires vssCore(s) && s.running && s.myIndex == s.dealerIndex
 //@ assigns *s, s.processor.nPrivate, s.processor.nBroadcast, s.processor.sentComplaint[:], s.processor.sentAnswer[:], s.processor.sentVector[:]
 //@ ensures [ok] result == nil ==> s.vAReceived && s.xReceived && s.validKey && len(s.vA) == s.threshold+1 && len(s.y) == s.size && len(s.a) == s.threshold+1
 //@ ensures [error] result != nil ==> unchanged(s.vAReceived) && unchanged(s.xReceived) && unchanged(s.validKey) && unchanged(s.running) && vssCore(s)
